@@ -463,3 +463,15 @@ brk("c06-output-path-join-swapped", ["C06"], (ENCCMD, '        SuitKWAlgorithms(
 brk("c15-key-write-dropped", ["C15"], (KEYS, "            fd.write(data)\n", "            pass\n"))
 brk("c15-keypair-files-swapped", ["C15"], (KEYS, 'self._write(private, f"{file_name_prefix}_priv.{encoding}")', 'self._write(public, f"{file_name_prefix}_priv.{encoding}")'))
 ben("c15-keypair-names-in-locals", ["C15"], (KEYS, '        self._write(private, f"{file_name_prefix}_priv.{encoding}")\n        self._write(public, f"{file_name_prefix}_pub.{encoding}")', '        private_name = file_name_prefix + "_priv." + encoding\n        public_name = file_name_prefix + "_pub." + encoding\n        self._write(private, private_name)\n        self._write(public, public_name)'))
+
+
+# ------------------------------------------------------------------ session 2026-09-28: mutation-probe operators (DESIGN 10.14)
+brk("c10-merge-break-at-padding", ["C10"], (CACHE, "                continue  # Empty key means padding - skip", "                break  # Empty key means padding - skip"))
+brk("c07-layout-break-other-domain", ["C07"], (IMG, "            if storage_domain is not None and storage_domain != domain:\n                continue",
+                                               "            if storage_domain is not None and storage_domain != domain:\n                break"))
+brk("c07-layout-break-empty-slot", ["C07"], (IMG, "                envelope_count += 1\n            else:\n                continue",
+                                             "                envelope_count += 1\n            else:\n                break"))
+brk("c02-tstr-falsy-guard", ["C02"], (C, "        if (value is not None) and (not isinstance(value, str)):", "        if value and (not isinstance(value, str)):"))
+brk("c09-kms-env-before-inherited", ["C09"], (SIGNCMD, '        elif self.kms_script is None:\n            if os.environ.get("NCS_SUIT_KMS_SCRIPT"):',
+                                              '        elif self.kms_script is None or os.environ.get("NCS_SUIT_KMS_SCRIPT"):\n            if os.environ.get("NCS_SUIT_KMS_SCRIPT"):'))
+ben("c09-kms-is-none-spelled", ["C09"], (SIGNCMD, "        elif self.kms_script is None:", "        elif not (self.kms_script is not None):"))
